@@ -42,7 +42,7 @@ func (l *lie) value(actual int) uint64 {
 
 // node is a member of an archive.
 type node struct {
-	Kind  string `json:"kind"` // file | dir | zip | fakezip | corrupt | emptyzip
+	Kind  string `json:"kind"` // file | dir | zip | fakezip | corrupt | emptyzip | halfzip
 	Name  string `json:"name"` // name inside its archive ('/'-separated, directories end with '/')
 	Size  int    `json:"size,omitempty"`
 	Store bool   `json:"store,omitempty"`
@@ -73,6 +73,18 @@ func (n *node) content() []byte {
 		return writeRawZip(nil)
 	case "zip":
 		return buildZip(n.Kids)
+	case "halfzip":
+		// an archive whose central directory is sound and whose members can be extracted one after the other — until the
+		// last one, whose local header is damaged: the failure comes after the earlier members have been written
+		b := buildZip(n.Kids)
+		cd := bytes.Index(b, []byte("PK\x01\x02"))
+		if cd < 0 {
+			return b
+		}
+		if last := bytes.LastIndex(b[:cd], []byte("PK\x03\x04")); last > 0 {
+			copy(b[last:], "XXXX")
+		}
+		return b
 	}
 	return nil
 }
@@ -136,6 +148,12 @@ func scan(kids []node, t *traits, classes map[string]bool) {
 		switch k.Kind {
 		case "corrupt":
 			t.Corrupt = true
+		case "halfzip":
+			t.Corrupt = true
+			if zipNamed(k.Name) {
+				t.Nested = true
+			}
+			scan(k.Kids, t, classes)
 		case "zip":
 			if zipNamed(k.Name) {
 				t.Nested = true
@@ -225,7 +243,7 @@ func (l *layout) place(root, dest string, kids []node, rec bool, reached bool) {
 		if old, ok := l.declared[p]; !ok || d > old {
 			l.declared[p] = d
 		}
-		if k.Kind == "zip" && rec && zipNamed(k.Name) {
+		if (k.Kind == "zip" || k.Kind == "halfzip") && rec && zipNamed(k.Name) {
 			nd := filepath.Join(filepath.Dir(p), stem(p))
 			l.dirs[nd] = true
 			l.place(root, nd, k.Kids, rec, reached && (k.Lie == nil || k.Lie.Where == "local"))
@@ -260,6 +278,8 @@ func describe(kids []node) string {
 			sb.WriteString(":" + k.Kind)
 		case "zip":
 			sb.WriteString(describe(k.Kids))
+		case "halfzip":
+			sb.WriteString(describe(k.Kids) + "(last member's local header damaged)")
 		}
 		if k.Store {
 			sb.WriteString("(stored)")
